@@ -282,6 +282,23 @@ fn num_bytes_for_k(k: u32) -> usize {
     (((k * 3) >> 2) + 1) as usize
 }
 
+#[cfg(feature = "verif-hooks")]
+impl Array6 {
+    /// Verification hook: (registers, num_zeros, hip, kxq0, kxq1, out_of_order).
+    pub(super) fn verif_parts(&self) -> (Vec<u8>, u32, f64, f64, f64, bool) {
+        let k = 1u32 << self.lg_config_k;
+        let regs = (0..k).map(|s| self.get(s)).collect();
+        (
+            regs,
+            self.num_zeros,
+            self.estimator.hip_accum(),
+            self.estimator.kxq0(),
+            self.estimator.kxq1(),
+            self.estimator.is_out_of_order(),
+        )
+    }
+}
+
 #[cfg(test)]
 mod tests {
     use super::*;
